@@ -31,8 +31,9 @@ VAR_NAMES = ["a", "al", "alpha", "b", "beta", "x", "y", "z", "phi", "r", "theta"
              "Measure1", "True1", "forx", "int1", "p", "pa", "t0", "p0", "p3", "p12"]
 KW_NAMES = ["a", "phi", "r", "select", "dark_counts", "cutoff", "shots", "e", "alpha", "al", "x", "N"]
 PAR_NAMES = ["a", "al", "alpha", "b", "e", "E", "I", "x", "phi", "r", "theta", "S", "N", "p", "sq", "t1",
-             "alpha_1", "aa", "p0", "p1", "Q"]
-STRINGS = ["", "a", "hello world", "fock", "a#b", "p0", "x y  z", "1.5", "True", "{a}", "é", "name", "a,b", "[1]"]
+             "alpha_1", "aa", "p0", "p1", "Q", "q0_1", "q1_0", "q3_14", "lambda_"]
+STRINGS = ["", "a", "hello world", "fock", "a#b", "p0", "x y  z", "1.5", "True", "False", "{a}", "é", "name", "a,b", "[1]", "p0x",
+           "True ", "q0", "pi"]
 
 
 def is_pname(s):
@@ -41,8 +42,13 @@ def is_pname(s):
 
 # ------------------------------------------------------------------ literals
 
+BOUNDARY_INTS = [9223372036854775806, 9223372036854775807, 4611686018427387904, 3037000499, 2147483647, 65536]
+
+
 def int_text(rng, small=True):
     n = rng.choice([0, 1, 2, 3, 4, 5, 7, 10, 12]) if small else rng.randrange(0, 1000)
+    if rng.random() < 0.01:
+        n = rng.choice(BOUNDARY_INTS)          # results next to the int64 bounds are still exact
     t = str(n)
     if rng.random() < 0.08:
         t = "0" * rng.randrange(1, 3) + t
@@ -68,6 +74,9 @@ def float_text(rng):
         sg = rng.choice(["", "+", "-"])
         ex = rng.choice(["0", "1", "2", "3", "01"])
         return mant + e + sg + ex
+    if rng.random() < 0.15:
+        # extreme but finite magnitudes: divisors far below machine epsilon, coefficients that vanish against 1
+        return rng.choice(["1e-17", "4e-19", "2.5e-300", "1E+18", "1e-10", "0.5e-16"])
     return rng.choice(["00.5", "1.50", "0.0", "10.0", "1e0", "5E-1"])
 
 
@@ -175,7 +184,8 @@ def py_eval(e, env):
     if k == "par":
         return env["{" + e[1] + "}"]
     if k == "reg":
-        return env["q" + str(e[1])]
+        k1 = "q" + str(e[1])                   # q007 and q7 are the same register
+        return env[k1] if k1 in env else env["q%d" % int(e[1])]
     if k == "idx":
         i = py_eval(e[2], env)
         arr = env[e[1]]
@@ -210,7 +220,7 @@ def py_eval(e, env):
     try:
         if k in ("add", "sub", "mul") and isinstance(a, int) and isinstance(b, int):
             r = a + b if k == "add" else (a - b if k == "sub" else a * b)
-            if abs(r) >= 2 ** 62:
+            if not (-2 ** 63 <= r <= 2 ** 63 - 1):
                 raise OutOfDomain("int64 overflow")       # the properties exclude wrap-around
             return r
         if k == "add":
@@ -225,9 +235,9 @@ def py_eval(e, env):
             if isinstance(a, int) and isinstance(b, int):
                 if b < 0:
                     raise OutOfDomain("integer to negative integer power")
-                if b > 64 or abs(a) > 10 ** 6:
+                if b > 64 or abs(a) > 10 ** 10:
                     raise OutOfDomain("big integer power")
-                if abs(a ** b) >= 2 ** 62:
+                if not (-2 ** 63 <= a ** b <= 2 ** 63 - 1):
                     raise OutOfDomain("int64 overflow")
                 return a ** b
             if not isinstance(a, complex) and not isinstance(b, complex):
@@ -305,6 +315,14 @@ def fix(e):
 
 # ------------------------------------------------------------------ rendering
 
+# comment texts: ordinary ones, and ones holding characters that Python's str.splitlines treats as line ends
+# (form feed, NEL, U+2028, ...) although the grammar's COMMENT rule runs to the next \\r or \\n only; a comment
+# may also end in a backslash without continuing on the next line
+COMMENT_TEXTS = ["", " c", " G | 0", " \"q\"", "  tab\there", " é", " page\x0cbreak Vac | 3", " sep\u2028Vac | 3",
+                 " nel\x85G | 1", " vt\x0bx", " fs\x1cx", " ps\u2029 G | 2", " wrapped \\", "\\", " nbsp\u00a0here",
+                 " zero\u200bwidth", " bom\ufeff"]
+
+
 class Layout:
     """Layout choices. With rng=None the canonical layout is produced: single spaces around
     binary operators, after commas and around '|' and '=', LF line ends, four-space indents."""
@@ -339,7 +357,7 @@ class Layout:
             if self.rng.random() < 0.3:
                 s += " " * self.rng.randrange(1, 4)
             if self.comments and self.rng.random() < 0.15:
-                s += "#" + self.rng.choice(["", " c", " G | 0", " \"q\"", "  tab\there", " é"])
+                s += "#" + self.rng.choice(COMMENT_TEXTS)
         return s + self.newline
 
     def blank_lines(self, allow=True):
@@ -352,7 +370,7 @@ class Layout:
             if r < 0.5:
                 s += self.newline
             elif r < 0.75 and self.comments:
-                s += "# " + self.rng.choice(["comment", "name x", "1, 2", ""]) + self.newline
+                s += "# " + self.rng.choice(["comment", "name x", "1, 2", ""] + COMMENT_TEXTS) + self.newline
             else:
                 s += " " * self.rng.randrange(1, 4) + self.newline
         return s
@@ -997,9 +1015,17 @@ def gen_symexpr_raw(rng, leaves, depth, scope=None):
             return ("int", str(rng.randrange(1, 8)))
         if scope is not None and scope.names_of("float") and r < 0.88:
             return ("var", rng.choice(scope.names_of("float")))
+        if rng.random() < 0.04:
+            return ("float", rng.choice(["1e-17", "4e-19", "1E+18"]))      # coefficients that vanish against 1
         return ("float", rng.choice(["0.5", "1.5", "0.25", "2.0", "0.1", "3.75", "1e-1"]))
     d = depth - 1
     r = rng.random()
+    if rng.random() < 0.05:
+        # a negated even power over an integer multiple of a symbol: SymPy holds the coefficient -1/n as a
+        # rational and prints a bare minus in front of the power
+        a, b = rng.choice(leaves), rng.choice(leaves)
+        return ("div", ("neg", ("brk", ("pow", a, ("int", str(rng.choice([2, 4])))))),
+                ("brk", ("mul", ("int", str(rng.randrange(2, 6))), b)))
     if r < 0.1:
         return ("neg", gen_symexpr_raw(rng, leaves, d, scope))
     if r < 0.16:
@@ -1258,6 +1284,11 @@ def gen_template(rng, cfg=None):
     # scalar initialiser holding a parameter expression, then used as an argument
     if rng.random() < 0.5:
         vn = scope.fresh(rng)
+        if rng.random() < 0.25:
+            cand = [n for n in names if n not in scope.used_names and n not in KEYWORDS and not n.startswith("q")]
+            if cand:
+                vn = rng.choice(cand)        # a variable may carry the name of a parameter
+                scope.used_names.add(vn)
         # declared type int is excluded: the cast is not re-applied at instantiation
         # (open finding C04-declared-type-not-enforced)
         extra.append(("var", rng.choice(["float", "complex"]), vn, symval()))
@@ -1290,6 +1321,8 @@ def gen_template(rng, cfg=None):
     if rng.random() < 0.35:
         an = scope.fresh(rng, ["U", "V", "W", "Uni", "M2"])
         r, c = rng.randrange(1, 4), rng.randrange(1, 4)
+        if rng.random() < 0.15:
+            r, c = rng.choice([(1, 11), (1, 12), (11, 1), (2, 11)])     # element indices of two digits
         if r * c == 1 and not cfg.get("allow_1x1_array_param"):
             # a 1x1 whole-array parameter is indistinguishable, once serialised, from a 1x1 array
             # holding one scalar parameter (open finding C01-1x1-array-parameter)
@@ -1348,9 +1381,11 @@ def gen_rrt_script(rng, cfg=None):
     cases = []
     nreg = rng.randrange(1, 6)
     regs = rng.sample(range(0, 12), nreg)
+    # `q007` is a legal spelling of register 7 (REGREF : 'q' [0-9]+): one spelling per register and script
+    spell = {r: ("0" * rng.choice([0, 0, 0, 0, 1, 2]) + str(r)) for r in regs}
     for k in range(rng.randrange(1, 4)):
         sub = rng.sample(regs, rng.randrange(1, nreg + 1))
-        e = gen_symexpr(rng, [("reg", r) for r in sub], rng.choice([1, 2, 3]), scope, need_all=rng.random() < 0.5)
+        e = gen_symexpr(rng, [("reg", spell[r]) for r in sub], rng.choice([1, 2, 3]), scope, need_all=rng.random() < 0.5)
         kwpos = rng.random() < 0.4
         plain, _v = gen_expr(rng, scope, rng.choice(["int", "float"]), 1)
         if kwpos:
